@@ -2,6 +2,7 @@
 //! hooks on) on generated cases and writes (a) Coq case files evaluated against the Gallina model
 //! and (b) a JSON-lines file for the exact-rational oracles.
 mod util;
+mod mesh;
 mod quadric;
 mod c17;
 mod polys;
@@ -47,6 +48,7 @@ fn main() {
                 "C05" => loops::run_c05(seed, n, out),
                 "C05p" => loops::run_c05_as(seed, n, out, "C05p"),
                 "C10" => loops::run_c10(seed, n, out),
+                "C01mesh" | "C09mesh" | "C08hist" | "C08rand" | "C01refine" | "C09refine" | "C18refine" => mesh::run(prop, seed, n, out, &args[6..]),
                 _ => { eprintln!("unknown property {}", prop); std::process::exit(2) }
             }
         }
@@ -69,6 +71,7 @@ fn main() {
             "C17" => c17::replay(&args[3..]),
             "C05" | "C05p" => loops::replay_c05(&args[3..]),
             "C10" => loops::replay_c10(&args[3..]),
+            "C01" | "C08" | "C09" | "C18" => mesh::replay(&args[3..]),
             _ => { eprintln!("unknown property"); std::process::exit(2) }
         },
         // exhaustive-ish searches used while building a check (not part of any registered command)
